@@ -1,7 +1,7 @@
 #!/usr/bin/env python3
 """The standard check flow shared by all properties (DESIGN.md section 2, steps 1-8)."""
 import os, sys, json, time, random, re, traceback
-import vlib
+import vlib, gen_pins
 from vlib import log
 
 
@@ -117,6 +117,12 @@ def standard_check(spec, argv):
     known_seen = {}
     notes = []
 
+    # ---- 0. source pins: the model is pinned to the source it was validated against --------
+    props_files = list(spec.props_files)
+    if os.path.exists(gen_pins.pins_file(prop)):
+        gen_pins.register(prop)
+        props_files.append('theories/Pins/%s.v' % prop)
+
     # ---- 1. translators ----------------------------------------------------------------
     try:
         changed = vlib.regen()
@@ -128,14 +134,14 @@ def standard_check(spec, argv):
         violations.append((rp, 'no-failing-input-found'))
 
     # ---- 2. proofs ----------------------------------------------------------------------
-    targets = [f[:-2] + '.vo' for f in spec.props_files] + list(spec.model_targets)
+    targets = [f[:-2] + '.vo' for f in props_files] + list(spec.model_targets)
     b = vlib.coq_build(targets)
-    scan = vlib.forbidden_scan(list(spec.props_files) + [t[:-3] + '.v' for t in spec.model_targets])
+    scan = vlib.forbidden_scan(list(props_files) + [t[:-3] + '.v' for t in spec.model_targets])
     rep = dict(theorems=[], assumptions={}, bad_axioms=[], ok=False, log='')
     if b['ok']:
-        rep = vlib.props_report(spec.props_files)
+        rep = vlib.props_report(props_files)
     n_obl = 0
-    for f in spec.props_files:
+    for f in props_files:
         n_obl += len(re.findall(r'^\s*(?:Theorem|Corollary|Example)\s+[\w\']+', open(os.path.join(vlib.COQ, f)).read(), flags=re.M))
     proof_ok = b['ok'] and rep['ok'] and not scan
     broken = None
@@ -144,13 +150,16 @@ def standard_check(spec, argv):
             broken = 'forbidden construct: ' + '; '.join(scan[:5])
         elif not b['ok']:
             broken = 'proof obligation no longer checks: %s (in %s line %s): %s' % (b['failed_lemma'], b['failed_file'], b['failed_line'], (b['error'] or '')[:400])
+            if b.get('failed_file') and b['failed_file'].startswith('theories/Pins/'):
+                broken = ('source changed since the model was validated against it (obligation %s_source_pinned): %s'
+                          % (prop, '; '.join(gen_pins.diff(prop)[:12])))
         else:
             broken = 'assumptions: ' + '; '.join(rep['bad_axioms'][:5]) + rep['log'][-400:]
         log(broken)
 
     chk = None
     if tier == 'thorough' and proof_ok:
-        chk = vlib.coqchk([f for f in spec.props_files])
+        chk = vlib.coqchk([f for f in props_files])
         if not chk['ok']:
             proof_ok = False
             broken = 'coqchk rejected the compiled development: ' + chk['summary'][-600:]
@@ -292,7 +301,7 @@ def standard_check(spec, argv):
           ] + list(spec.assumptions)
     cov = dict(
         obligations=n_obl, discharged=(n_obl if proof_ok else 0),
-        checker_cmd='make -C coq -j%d %s ; coqc on %s (Print Assumptions)' % (vlib.NPROC, ' '.join(targets), ' '.join(spec.props_files)),
+        checker_cmd='make -C coq -j%d %s ; coqc on %s (Print Assumptions)' % (vlib.NPROC, ' '.join(targets), ' '.join(props_files)),
         trusted_base=tb,
         theorems=rep['theorems'],
         partial=spec.partial,
